@@ -1,5 +1,5 @@
 #!/bin/sh
 # runs the repository's test-suite (xdist, 12 workers) and prints a summary; baseline: 493 passed, 2 failed, 1 collection error
-cd /repo && /venv/bin/python -m pytest -q -p no:cacheprovider --timeout=900 -n 12 --continue-on-collection-errors -q > /tmp/baseline_run.log 2>&1
+cd /repo && /venv/bin/python -m pytest -q -p no:cacheprovider --timeout=900 -n 12 --continue-on-collection-errors > /tmp/baseline_run.log 2>&1
 grep -E "passed|failed" /tmp/baseline_run.log | tail -1
 grep -E "^FAILED" /tmp/baseline_run.log | sort
